@@ -122,6 +122,36 @@ theorem SameTree.inv {s s' : State} (h : SameTree s s') (i : Inv s) : Inv s' whe
   nodup := by rw [h.children]; exact i.nodup
   acyclic := by rw [h.children]; exact i.acyclic
 
+/-- the fields the invariant speaks about -/
+structure SameStruct (s s' : State) : Prop where
+  next : s'.next = s.next
+  kind : s'.kind = s.kind
+  children : s'.children = s.children
+  parent : s'.parent = s.parent
+  psd : s'.psd = s.psd
+
+theorem SameTree.toStruct {s s' : State} (h : SameTree s s') : SameStruct s s' :=
+  ⟨h.next, h.kind, h.children, h.parent, h.psd⟩
+
+theorem SameStruct.trans {a b c : State} (h1 : SameStruct a b) (h2 : SameStruct b c) : SameStruct a c :=
+  ⟨h2.next.trans h1.next, h2.kind.trans h1.kind, h2.children.trans h1.children,
+   h2.parent.trans h1.parent, h2.psd.trans h1.psd⟩
+
+theorem SameStruct.inv {s s' : State} (h : SameStruct s s') (i : Inv s) : Inv s' where
+  live := by rw [h.children, h.next]; exact i.live
+  contOnly := by
+    intro c; rw [h.children]
+    have : s'.cont c = s.cont c := by simp [State.cont, h.kind]
+    rw [this]; exact i.contOnly c
+  layerOnly := by rw [h.children, h.kind]; exact i.layerOnly
+  parentOk := by rw [h.children, h.parent]; exact i.parentOk
+  psdOk := by
+    intro c x d; rw [h.children, h.psd]
+    have : s'.docOf c = s.docOf c := by simp [State.docOf, h.kind, h.psd]
+    rw [this]; exact i.psdOk c x d
+  nodup := by rw [h.children]; exact i.nodup
+  acyclic := by rw [h.children]; exact i.acyclic
+
 /-! ### Traversals read neither caches nor dirty flags -/
 
 theorem descList_congr {s s' : State} (h : SameTree s s') (r r' : Id → Except Err (List Id))
